@@ -9,3 +9,4 @@ pub mod core;
 pub mod mw;
 pub mod obs;
 pub mod routes;
+pub mod shapes;
